@@ -63,7 +63,10 @@ func c12(c *ctx) {
 			for k := 0; k < 3 && len(long) < 200; k++ {
 				long = append(long, gram.Derive(r, g, "R0", alpha)...)
 			}
-			pool = append(pool, string(long))
+			pool = tractable(g, "R0", append(pool, string(long)))
+			if len(tractable(g, "R0", []string{string(long)})) == 0 {
+				long = []rune(pool[0])
+			}
 			hl := 6 + r.Intn(35)
 			var h []string
 			for k := 0; k < hl; k++ {
